@@ -289,7 +289,7 @@ def validate_traces(module, traces, invariants, workdir, batch=12, extra_consts=
 OP = dict(END=0, CR=1, JN=2, TJ=3, DT=4, YD=5, EX=6, RET=7, LK=8, TL=9, UL=10, INC=11, CWAIT=12, CSIG=13, CBC=14,
           BAR=15, JCDEC=16, JCWAIT=17, UCWAIT=18, UCSIG=19, FEWL=20, FEMS=21, ONCE=22, KSET=23, KGET=24,
           SLEEP=25, TLK=26, TJN=27, SETV=28, WAITV=29, NEST=30, PROBE=31, KCREATE=32, KDELETE=33,
-          CANCEL=34, TESTCANCEL=35, BUSY=36)
+          CANCEL=34, TESTCANCEL=35, BUSY=36, FELK=37, FEUL=38)
 F_PF, F_DETACH, F_STACK, F_ATTR, F_NULLID, F_DIRTY = 1, 2, 4, 8, 16, 32
 
 
@@ -1956,6 +1956,13 @@ def gen_felock_prog(rng):
         for _ in range(cnt):
             ops += [(OP['FEWL'], 0, 1, 1), (OP['FEMS'], 0, 0, 0)]
         bodies.append(ops)
+    if rng.random() < 0.5:
+        # plain lock / unlock of the same full/empty lock mixed with the status operations
+        for _ in range(rng.randint(1, 2)):
+            ops = []
+            for _ in range(rng.randint(1, 4)):
+                ops += [(OP['FELK'], 0, 0, 0)] + ([(OP['YD'], rng.choice((0, 2)), 0, 0)] if rng.random() < 0.3 else []) + [(OP['FEUL'], 0, 0, 0)]
+            bodies.append(ops)
     rng.shuffle(bodies)
     return {'init': [], 'bodies': _spawn_join(rng, bodies)}
 
